@@ -56,5 +56,51 @@ Theorem C08_index_bijective : forall m,
 Proof. intros m. split; [intros; eapply cidx_inj; eauto|apply cidx_surj]. Qed.
 Print Assumptions C08_index_bijective.
 
+(* ---- closed forms the correspondence run uses where the executable model would be too slow (unary nat): weights far above
+   65 535 / strings far longer than 65 535 code points.  All are consequences of C08_weighted_optimal. ---- *)
+
+(* scaling the three weights by c scales the optimal cost by c (so a collection of short strings with weights c*(wi, wd, ws) has the
+   distances c * wdist wi wd ws: values above 2^16 without long strings) *)
+Theorem C08_scale : forall c wi wd ws (a b : str),
+  wdist (c * wi) (c * wd) (c * ws) a b = c * wdist wi wd ws a b.
+Proof.
+  intros c wi wd ws a b.
+  destruct (C08_weighted_optimal wi wd ws a b) as [(i1 & d1 & s1 & E1 & C1) M1].
+  destruct (C08_weighted_optimal (c * wi) (c * wd) (c * ws) a b) as [(i2 & d2 & s2 & E2 & C2) M2].
+  pose proof (M2 _ _ _ E1) as U. pose proof (M1 _ _ _ E2) as V.
+  apply Nat.le_antisymm.
+  - rewrite C1. replace (c * (wi * i1 + wd * d1 + ws * s1)) with (c * wi * i1 + c * wd * d1 + c * ws * s1) by ring. exact U.
+  - rewrite C2. replace (c * wi * i2 + c * wd * d2 + c * ws * s2) with (c * (wi * i2 + wd * d2 + ws * s2)) by ring.
+    apply Nat.mul_le_mono_l. exact V.
+Qed.
+Print Assumptions C08_scale.
+
+(* against the empty string every letter is inserted resp. deleted; a string against itself costs nothing *)
+Theorem C08_empty_and_self : forall wi wd ws (a : str),
+  wdist wi wd ws [] a = wi * length a /\ wdist wi wd ws a [] = wd * length a /\ wdist wi wd ws a a = 0.
+Proof.
+  intros wi wd ws a. unfold wdist. rewrite !wlev_dp_spec. repeat split.
+  - apply wlev_nil_r.
+  - pose proof (wlev_minimal N.eq_dec wi wd ws _ _ _ _ _ (edits_refl a)) as H. unfold cost in H. lia.
+Qed.
+Print Assumptions C08_empty_and_self.
+
+(* at least the length difference has to be deleted resp. inserted (with C08_bounded: a two-sided bound that a value wrapped
+   modulo 2^16 or clamped at 65 535 cannot meet once the lengths differ by more than 65 535) *)
+Theorem C08_length_lower : forall wi wd ws (a b : str),
+  wd * (length a - length b) <= wdist wi wd ws a b /\ wi * (length b - length a) <= wdist wi wd ws a b.
+Proof.
+  intros wi wd ws a b.
+  destruct (C08_weighted_optimal wi wd ws a b) as [(i & d & s & E & C) _].
+  pose proof (edits_length _ _ _ _ _ E) as L. rewrite C. split.
+  - assert (length a - length b <= d) by lia. nia.
+  - assert (length b - length a <= i) by lia. nia.
+Qed.
+Print Assumptions C08_length_lower.
+
 Example C08_ex : wdist 2 3 5 [1;2;3]%N [2;3;4;5]%N = 7 /\ wdist 3 2 5 [1;2;3]%N [2;3;4;5]%N = 8 /\ cidx 5 1 3 = 5.
 Proof. repeat split; vm_compute; reflexivity. Qed.
+
+Example C08_ex_scale : wdist 2000 3000 5000 [1;2;3]%N [2;3;4;5]%N = 1000 * wdist 2 3 5 [1;2;3]%N [2;3;4;5]%N /\
+  wdist 2 3 5 [] [7;7;8]%N = 6 /\ wdist 2 3 5 [7;7;8]%N [] = 9 /\ 3 * (4 - 1) <= wdist 2 3 5 [1;2;3;4]%N [9]%N.
+Proof. split; [apply (C08_scale 1000 2 3 5)|]. repeat split; vm_compute; repeat constructor. Qed.
